@@ -47,7 +47,7 @@ PartOf(p) ==
         cts == { i \in 1..Len(ls) : inf[i].k = "ct" }
         cd  == IF cds = {} THEN [n |-> <<>>, f |-> <<>>] ELSE inf[CHOOSE i \in cds : \A j \in cds : j <= i]
         ct  == IF cts = {} THEN [m |-> <<>>] ELSE inf[CHOOSE i \in cts : \A j \in cts : j <= i]
-    IN [bad |-> Len(ls) = 0 \/ \E i \in 1..Len(ls) : inf[i].k = "bad",
+    IN [bad |-> \E i \in 1..Len(ls) : inf[i].k = "bad",        \* zero lines = part without headers: legal, empty name
         unk |-> \E i \in 1..Len(ls) : inf[i].k = "unknown",
         n |-> cd.n, f |-> cd.f, m |-> ct.m, d |-> p.data]
 
